@@ -28,7 +28,7 @@ func c03Gen(r *rand.Rand, tier string) any {
 	sc := &histScenario{Spec: genProject(r, o), Proc: genProc(r)}
 	sc.Proc.Strategy = []int{simrt.StratUniform, simrt.StratSticky, simrt.StratFIFO, simrt.StratRoundRobin}[r.IntN(4)]
 	shadow := sc.clone().Spec
-	sc.Mode = []string{"crash", "crash", "crash", "fail", "fail", "ioerr", "compose", "crash-revert"}[r.IntN(8)]
+	sc.Mode = []string{"crash", "crash", "crash", "fail", "fail", "ioerr", "compose", "crash-revert", "diskfull"}[r.IntN(9)]
 	if sc.Mode == "crash-revert" {
 		// full build, one item edit, interrupted rebuild
 		label := pickLabel(r, shadow)
@@ -73,7 +73,7 @@ func c03Gen(r *rand.Rand, tier string) any {
 			sc.Ops = append(sc.Ops, *op)
 		}
 	}
-	sc.Ops = append(sc.Ops, opSpec{Op: "build", Label: pickLabel(r, shadow)})
+	sc.Ops = append(sc.Ops, opSpec{Op: "build", Label: pickLabel(r, shadow), Always: r.IntN(4) == 0})
 	return sc
 }
 
@@ -430,6 +430,46 @@ func c03Exec(scAny any, c *simcheck.Ctx) *simcheck.Violation {
 			}
 			if v := h.recoverAndCheck("fail", recIdx, final.Label, want, stillFailed, what); v != nil {
 				return narrow(v, mi)
+			}
+		}
+	case "diskfull":
+		// from one I/O operation on, every operation that creates or writes fails (ENOSPC),
+		// and the bodies that run fail after (half) writing their outputs
+		stride := ioOps/40 + 1
+		for k := 1 + c.Tapes.Get("diskfull").Intn(stride); k <= ioOps; k += stride {
+			if sc.Only != nil && *sc.Only != k {
+				continue
+			}
+			if err := h.restore(snap); err != nil {
+				return simcheck.V(simcheck.EngineError, "restore: %v", err)
+			}
+			pc := h.pc
+			pc.IOErrFrom = k
+			op := *final
+			op.Fail = append([]string{}, executed...)
+			h.w.failLate = true
+			res := faulted(pc, &op)
+			h.w.failLate = false
+			c.St.Count("disk_full_runs", 1)
+			if v := procFailure(res); v != nil {
+				if v.Class == simcheck.EngineError {
+					return v
+				}
+				v.Class = "disk-full-" + v.Class
+				return narrow(v, k)
+			}
+			failed := []string{}
+			for _, r := range h.w.log {
+				if r.Build == last && r.Kind == "fail" {
+					failed = append(failed, r.Label)
+				}
+			}
+			if len(failed) > 0 && res.LoadErr == nil && res.RunErr == nil {
+				return narrow(simcheck.V("failure-not-reported", "the disk filled up at I/O operation %d and the bodies of %v failed, but the build reported success", k, failed), k)
+			}
+			what := fmt.Sprintf("the disk was full from I/O operation %d on and the bodies of %v failed after writing their outputs", k, failed)
+			if v := h.recoverAndCheck("diskfull", last+1, final.Label, want, failed, what); v != nil {
+				return narrow(v, k)
 			}
 		}
 	case "ioerr":
